@@ -17,6 +17,7 @@ real code.  The seam is bound by running a slice of the cases through both the f
 points and a real ``*.dist-info/entry_points.txt`` directory on ``sys.path`` (scanned by
 the real ``entrypoints.get_group_all``): both routes must give the same observation.
 """
+import functools
 import itertools
 import logging
 import os
@@ -389,19 +390,28 @@ def run_case(case, distinfo=None):
     obs = observe(case, distinfo)
     verdict = judge(case, obs)
     if verdict is not None and obs["phase"] == "plugins":
-        verdict = (classify_plugin_failure(case, obs, distinfo), verdict[1])
+        verdict = (classify_plugin_failure(case, obs), verdict[1])
     return verdict, obs
 
 
-def classify_plugin_failure(case, obs, distinfo=None):
+@functools.lru_cache(maxsize=None)
+def _loads_without_absent(n, inner_edges, required):
+    """Does the plugin set load once the constraints naming the absent plugin are gone?"""
+    case = {"n": n, "edges": [list(edge) for edge in inner_edges],
+            "required": list(required), "returns": [False] * n, "sections": [],
+            "unknown": False, "logging": False, "route": "seam"}
+    return observe(case)["phase"] != "plugins"
+
+
+def classify_plugin_failure(case, obs):
     """Key for 'load_section_plugins raised': is a constraint naming the absent plugin
     to blame (the same plugin set without those constraints loads)?"""
     error = obs["error"]
     kind = type(error).__name__
     absent_edges = [e for e in case["edges"] if e[2] == ABSENT]
     if absent_edges:
-        stripped = {**case, "edges": [e for e in case["edges"] if e[2] != ABSENT]}
-        if observe(stripped, distinfo)["phase"] != "plugins":
+        inner = tuple(tuple(e) for e in case["edges"] if e[2] != ABSENT)
+        if _loads_without_absent(case["n"], inner, tuple(case["required"])):
             befores = [e for e in absent_edges if e[1] == BEFORE]
             if befores and isinstance(error, KeyError) and error.args == (ABSENT,):
                 return "before-constraint-names-absent-plugin:KeyError"
